@@ -121,6 +121,8 @@ var optDocs = []struct {
 }{
 	{"r{a{f.x} b}", "- r\n  - a\n    - f.x\n  - b\n", []wproto.Item{{D: 1, N: "r"}, {D: 2, N: "a"}, {D: 3, N: "f.x"}, {D: 2, N: "b"}}},
 	{"r{a{../../x} b}", "- r\n  - a\n    - ../../x\n  - b\n", []wproto.Item{{D: 1, N: "r"}, {D: 2, N: "a"}, {D: 3, N: "../../x"}, {D: 2, N: "b"}}},
+	// malformed (From-Markdown only): an item two levels below its predecessor, then an item without text
+	{"malformed 'r / a / (jump) x / -'", "- r\n  - a\n      - x\n  -\n", nil},
 }
 
 func optReq(op, fam string, seq []string, di int) wproto.Req {
@@ -195,7 +197,7 @@ func checkOptions(r *evid.Run, layer string, docs []int, want func(s *optState) 
 			r.Sample(map[string]any{"options": s.Opts, "op": s.Op, "family": s.Fam, "effect": effString(s.Rule)})
 		}
 		for _, di := range docs {
-			if di == 1 && s.Op == "verify" {
+			if (di == 1 && s.Op == "verify") || (optDocs[di].items == nil && s.Fam == "root") {
 				continue
 			}
 			got := call(s.Op, s.Fam, s.Opts, di)
